@@ -61,9 +61,10 @@ def rich_blob(rng, depth, pool, tag=None):
     """A nested element with attributes, mixed text and tails."""
     e = E(tag or rng.choice(['meta', 'data', 'blk', 'story', 'item', 'roDelete', 'mosromgrmeta',
                              'roCreate', 'storyID', 'itemID', 'p', '{urn:vendor}clip', '{urn:vendor}TextTime',
-                             '{urn:vendor}storyID', '{urn:vendor}item', '{urn:vendor}roDelete']))
+                             '{urn:vendor}storyID', '{urn:vendor}item', '{urn:vendor}roDelete',
+                             'L\u00e4nge', '\u5e45']))          # XML names need not be ASCII
     if rng.random() < 0.5:
-        e.set(rng.choice(['a', 'type', 'lang', 'x-y']), rng.choice(pool))
+        e.set(rng.choice(['a', 'type', 'lang', 'x-y', 'Ma\u00dfeinheit']), rng.choice(pool))
     if rng.random() < 0.3:
         e.set('b', rng.choice(pool))
     if depth > 0 and rng.random() < 0.7:
@@ -151,7 +152,10 @@ def rand_timing(rng, mode='any'):
         if mode == 'any' and rng.random() < 0.2:
             return B.timing()                    # empty payload
         return None
-    q = lambda: 0 if rng.random() < 0.12 else rng.randint(0, 64) / 8      # zero is a duration too
+    # zero is a duration too; some values are not a whole number of milliseconds in binary
+    q = lambda: (0 if rng.random() < 0.12 else
+                 rng.choice([2.01, 2.03, 4.06, 8.03, 1.001, 0.0004, 0.1, 0.2, 0.57, 4.35]) if rng.random() < 0.15 else
+                 rng.randint(0, 64) / 8)
     kw = {}
     c = rng.random()
     if c < 0.3:
@@ -171,7 +175,9 @@ def rand_timing(rng, mode='any'):
             return '%sT%02d:%02d' % (day, hh, mm)          # no seconds
         if fmt == 'DATE':
             return day                                     # date only: midnight
-        return fmt % (day, '%02d:%02d:%02d' % (hh, mm, ss))
+        # sometimes with a UTC offset or a zone designator (an aware time)
+        zone = rng.choice(['', '', '', '+01:00', 'Z', '-05:30'])
+        return fmt % (day, '%02d:%02d:%02d' % (hh, mm, ss)) + zone
     if rng.random() < 0.2:
         kw['started'] = spell('2020-01-01', rng.randint(0, 23), rng.randint(0, 59), 0)
     if rng.random() < 0.2:
